@@ -264,7 +264,13 @@ func (x *Exec) execInstr(fr *Frame, b *ssa.BasicBlock, ins ssa.Instruction, st *
 			l.Off = s.Off
 		}
 		fr.env[i] = Value{T: i.Type(), K: KPtr, Loc: l}
-	case *ssa.Go, *ssa.Send, *ssa.Select, *ssa.MakeChan:
+	case *ssa.MakeChan:
+		// creating a channel communicates with nothing: the result is an opaque value and no modelled
+		// storage changes; every operation ON a channel (send, receive, select, close, go) stays
+		// outside the subset
+		x.get(fr, st, i.Size)
+		x.setv(fr, i, x.havocValue(st, i.Type(), "chan"))
+	case *ssa.Go, *ssa.Send, *ssa.Select:
 		unsupported("concurrency instruction %T", ins)
 	default:
 		unsupported("instruction %T", ins)
